@@ -294,19 +294,20 @@ Qed.
     for every offset and length: everything before and after the transfer is written with the fill value in
     pieces of at most MAX_SIZE bytes, the data are transferred at exactly w * esz, and the element gets its
     full length *)
-Lemma first_write_fills_lemma : forall m w L count vals,
+Lemma first_write_fills_explicit : forall m w L count vals,
   m_store m = [] -> m_nofill m = false -> 0 < m_esz m ->
   0 <= w -> 0 <= count -> w + count <= L -> var_len m = L * m_esz m ->
   length vals = Z.to_nat count ->
-  exists m' lc tc,
+  exists lc tc,
     xdr_vdata m true (w * m_esz m) count vals =
-      Some (m', chunk_transfers 0 lc ++ [TWrite (w * m_esz m) (count * m_esz m)] ++
+      Some (set_store m (repeat (Val (fill_of m)) (Z.to_nat w) ++ vals ++
+                         repeat (Val (fill_of m)) (Z.to_nat (L - w - count))) (m_numrecs m),
+            chunk_transfers 0 lc ++ [TWrite (w * m_esz m) (count * m_esz m)] ++
                 chunk_transfers (w * m_esz m + count * m_esz m) tc, []) /\
     sumZ lc = w * m_esz m /\ sumZ tc = (L - w - count) * m_esz m /\
     Forall (fun c => 0 < c <= MAX_SIZE) (lc ++ tc) /\
-    m_store m' = repeat (Val (fill_of m)) (Z.to_nat w) ++ vals ++
-                 repeat (Val (fill_of m)) (Z.to_nat (L - w - count)) /\
-    Z.of_nat (length (m_store m')) * m_esz m = var_len m.
+    Z.of_nat (length (repeat (Val (fill_of m)) (Z.to_nat w) ++ vals ++
+                      repeat (Val (fill_of m)) (Z.to_nat (L - w - count)))) * m_esz m = var_len m.
 Proof.
   intros m w L count vals Hst Hnf Hesz Hw Hc HL Hlen Hv.
   unfold xdr_vdata, elem_length. cbv zeta. rewrite Hst, Hnf. cbn [length Z.of_nat].
@@ -352,12 +353,30 @@ Proof.
     - apply Z.ltb_ge in E. unfold bl in *. assert (L - w - count = 0) by nia. exists [].
       repeat split; auto. simpl; lia. intros. rewrite H. simpl. rewrite app_nil_r. reflexivity. }
   destruct TRAIL as [tc [E2 [S2 [F2 W2]]]]. rewrite E2.
-  exists (set_store m (repeat f (Z.to_nat w) ++ vals ++ repeat f (Z.to_nat (L - w - count))) (m_numrecs m)), lc, tc.
+  exists lc, tc.
   rewrite W2 by (rewrite app_length, repeat_length; lia).
   rewrite <- app_assoc.
   split; [reflexivity|]. split; auto. split; auto. split. apply Forall_app; auto.
-  cbn [m_store set_store]. split; auto.
   rewrite !app_length, !repeat_length. nia.
+Qed.
+
+Lemma first_write_fills_lemma : forall m w L count vals,
+  m_store m = [] -> m_nofill m = false -> 0 < m_esz m ->
+  0 <= w -> 0 <= count -> w + count <= L -> var_len m = L * m_esz m ->
+  length vals = Z.to_nat count ->
+  exists m' lc tc,
+    xdr_vdata m true (w * m_esz m) count vals =
+      Some (m', chunk_transfers 0 lc ++ [TWrite (w * m_esz m) (count * m_esz m)] ++
+                chunk_transfers (w * m_esz m + count * m_esz m) tc, []) /\
+    sumZ lc = w * m_esz m /\ sumZ tc = (L - w - count) * m_esz m /\
+    Forall (fun c => 0 < c <= MAX_SIZE) (lc ++ tc) /\
+    m_store m' = repeat (Val (fill_of m)) (Z.to_nat w) ++ vals ++
+                 repeat (Val (fill_of m)) (Z.to_nat (L - w - count)) /\
+    Z.of_nat (length (m_store m')) * m_esz m = var_len m.
+Proof.
+  intros m w L count vals H1 H2 H3 H4 H5 H6 H7 H8.
+  destruct (first_write_fills_explicit m w L count vals H1 H2 H3 H4 H5 H6 H7 H8) as [lc [tc [E [A [B [C D]]]]]].
+  eexists. exists lc, tc. split. exact E. repeat split; auto.
 Qed.
 
 (* ---- the contiguous-run decomposition of NCvario --------------------------------------------- *)
